@@ -44,12 +44,14 @@ def run(ctx):
     cf = vf.write_ndjson(ctx.path("classes.ndjson"), cases)
     of = ctx.path("obs.ndjson")
     vf.gotest_ok(ctx, "./internal/playback/", "^TestVerif_C27_Crash$", cases=cf, out=of, timeout=1500,
-                 params={"STRIDE": ctx.pick(41, 1), "EDGE": 2, "ALLPAT": ctx.pick(0, 1)})
+                 params={"STRIDE": ctx.pick(67, 1), "EDGE": 2, "ALLPAT": ctx.pick(0, 1)})
     recs = vf.read_ndjson(of)
     meta = [x for x in recs if x["kind"] == "meta"]
     recs = [x for x in recs if x["kind"] != "meta"]
     crash = [x for x in recs if x["kind"] == "crash"]
-    if not meta or len(crash) < len(cases):
+    nocrash = [x for x in recs if x["kind"] == "nocrash"]
+    recs = [x for x in recs if x["kind"] != "nocrash"]
+    if not meta or (len(crash) < len(cases) and not nocrash):
         raise vf.Infra("harness produced %d crash observations for %d classes" % (len(crash), len(cases)))
     byid = {c["id"]: c for c in cases}
 
@@ -85,7 +87,7 @@ def run(ctx):
                 key["panic"] = norm(o.get("panic", ""))
         else:
             key = {"kind": rec["kind"], "monitor": b["monitor"], "stream": rec["stream"]}
-            if rec["kind"] == "closed":
+            if rec["kind"] in ("closed", "layout"):
                 key["seg"] = rec["seg"]
         g = groups.setdefault(json.dumps(key, sort_keys=True), [key, 0, rec, set()])
         g[1] += 1
@@ -105,10 +107,18 @@ def run(ctx):
         elif rec["kind"] == "closed":
             ctx.violation(key, "normally closed segment %d of stream %s: monitor %s is false (header duration %s ms, fed %s)" % (
                 rec["seg"], rec["stream"], key["monitor"], rec["hdrDurMs"], str(rec["fed"])[:400]))
+        elif rec["kind"] == "layout":
+            ctx.violation(key, "segment %d of stream %s as closed by the recorder is not a header followed by moof+mdat parts: %s" % (
+                rec["seg"], rec["stream"], rec["boxes"]))
         else:
             ctx.violation(key, "run of stream %s: monitor %s is false: list %s spans %s get %s" % (
                 rec["stream"], key["monitor"], rec["obs"]["listStatus"], rec["obs"]["spans"], rec["obs"]["getStatus"]))
 
+    if nocrash and not ctx.violations:
+        raise vf.Infra("crash points could not be enumerated (%s) although no formula failed" % nocrash[0]["reason"])
+    for x in nocrash:
+        ctx.note("stream %s: crash points not enumerated, the recorded files are not what the model describes (%s)" % (
+            x["stream"], x["reason"]))
     sigs = set()
     for x in crash:
         if x["len"] > 0:
@@ -129,9 +139,9 @@ def run(ctx):
     for k, n in sorted(drift.items()):
         ctx.note("%d observations differ from the layer-1 reader (%s): DRIFT, not a verdict" % (n, k))
     ctx.sample({"class": cases[len(cases) // 2]})
-    mid = crash[len(crash) // 2]
+    mid = crash[len(crash) // 2] if crash else {"stream": "", "cls": {}, "off": 0, "len": 0, "pat": 0, "obs": {}}
     ctx.sample({"crash_point": {k: mid[k] for k in ("stream", "cls", "off", "len", "pat")}, "obs": mid["obs"]})
-    ctx.sample({"closed_segment": [x for x in recs if x["kind"] == "closed"][0]})
+    ctx.sample({"closed_segment": ([x for x in recs if x["kind"] == "closed"] or [None])[0]})
     ctx.assume("a crash leaves the bytes written so far in order (no block reordering); the torn write's remainder is absent, zero or stale data")
     ctx.assume("mediacommon's fMP4 parser is trusted to read back what playback serves (a plain trun walker when it rejects half-written samples)")
     ctx.assume("the last sample of each track of a run has no successor and is never written by the recorder (its duration is unknown); "
